@@ -77,6 +77,13 @@ func suiteC17(c *ctx) {
 				j.R.Stream.Synth.Blocks = 40
 			}
 		}
+		if i%6 == 5 {
+			// many small dynamic blocks with deep codes (long-code sub-tables, header scratch space):
+			// the part of the decoder with the most per-block set-up work
+			j.R = &RCase{Prop: "C17", API: "flate", Stream: StreamSpec{Kind: "synth", Synth: &SynthSpec{Seed: r.U64(), Blocks: 120 + r.Intn(200), Size: r.Pick([]int{5, 40, 300}), Kinds: "d"}},
+				Cut: -1, Src: pickSrc(r), Ctor: "new", Reads: r.PickS([]string{"big", "rand", "k257"}), RSeed: r.U64()}
+			j.W = nil
+		}
 		jobs = append(jobs, j)
 	}
 	solo := make([]string, len(jobs))
